@@ -109,7 +109,7 @@ impl Check for C13 {
             .into()
     }
     fn assumptions(&self) -> Vec<String> {
-        vec!["schedules are sampled (OS scheduler, generated sleeps, lock jitter), not enumerated".into(), "an event not processed within 20 s after all producers finished counts as lost".into()]
+        vec!["schedules are sampled (OS scheduler, generated sleeps, lock jitter), not enumerated".into(), "an event counts as lost when the receiver has processed nothing for 8 s after all producers finished".into()]
     }
     fn phases(&self, tier: Tier) -> Vec<Phase> {
         match tier {
@@ -195,7 +195,7 @@ impl Check for C13 {
             let _ = h.join();
         }
         let total: usize = expected.iter().map(|v| v.len()).sum();
-        let all_seen = scen.wait_until(Duration::from_secs(20), |l| l.count(rx_id, "f2") >= total);
+        let all_seen = scen.wait_progress(Duration::from_secs(8), |l| l.count(rx_id, "f2") >= total);
         rufsm::verif_sync::set_jitter(0);
         rufsm::verif_sync::set_tracking(false);
         for i in 0..scen.sessions.len() {
